@@ -48,10 +48,11 @@ type serverFindOrCreateSessionReq struct {
 }
 
 type serverHandleHTTPChannelReq struct {
-	sc       *ServerConn
-	write    bool
-	tunnelID string
-	res      chan error
+	sc           *ServerConn
+	write        bool
+	tunnelID     string
+	onRegistered func() error
+	res          chan error
 }
 
 type serverGetMulticastIPReq struct {
@@ -561,6 +562,11 @@ func (s *Server) handleHTTPChannel(req serverHandleHTTPChannelReq) error {
 	}
 
 	if !req.write {
+		err := req.onRegistered()
+		if err != nil {
+			return err
+		}
+
 		t := time.NewTimer(5 * time.Second)
 		defer t.Stop()
 
